@@ -212,6 +212,8 @@ def main(argv=None):
 
     n_ob = len(results)
     n_dis = len(by.get("discharged", []))
+    n_conc = sum(1 for r in by.get("discharged", []) if r.get("kind") == "concrete_point")
+    n_struct = sum(1 for r in by.get("discharged", []) if r.get("kind") != "concrete_point" and not r.get("solver"))
     nontrivial_hashes = {r["hash"] for r in results if r.get("nontrivial") and r["status"] in ("discharged", "known", "violated")}
     if n_dis == 0 and not violated and not args.only and not by.get("inconclusive"):
         harness_errors.append("vacuous run: no obligation was produced")
@@ -244,7 +246,12 @@ def main(argv=None):
             "outside_bounds": getattr(mod, "OUTSIDE", ""),
             "stubs": sorted(agg["stubs"]),
             "paths": agg["paths"],
-            "queries_discharged": n_dis,
+            "queries_discharged": n_dis - n_conc - n_struct,
+            "concrete_points": {"count": n_conc, "ids": [r["id"] for r in results if r.get("kind") == "concrete_point"][:30],
+                                "note": "real-code runs at fixed inputs (solver-found witnesses, or what real arithmetic cannot express: nan / inf, "
+                                        "integer dtypes); they are not solver verdicts"},
+            "structural_facts": {"count": n_struct, "note": "facts observed on the lifted run without a solver query (tags, lengths, identities, "
+                                                            "raising leaves); a failing one is reported only after the real code reproduces it"},
             "solver_time_s": round(agg["solver_time"], 3),
             "feasibility_queries": agg["feas_queries"],
             "feasibility_time_s": round(agg["feas_time"], 3),
